@@ -25,6 +25,42 @@ def run(ctx: Ctx, chk) -> None:
     chk.rule(rule, "the decoder isolates the payload as everything after the 5th ';' (a line with more than six ';'-separated parts is accepted with the rest as payload)")
     n = codec.check_delim1(ctx, chk, rule, only_funcs={f"{codec.SCHEMA}.to_dict"})
     chk.floor(rule, "split sites in MessageSchema.to_dict", n, 1)
+    chk.run_rule(fresh_decode, ctx)
+
+
+def fresh_decode(ctx: Ctx, chk) -> None:
+    rule = "FRESH-DECODE-1"
+    chk.rule(rule, "every received line is decoded by MessageSchema.load in the very step that dispatches it: the message handed to the handler (and yielded) is `self._message_schema.load(<the line just read>)`, not the result of a memoising wrapper or a remembered object (an accepted line always decodes to exactly the field values it spells, whatever happened to earlier messages)")
+    from ..prov import Canon
+    from . import tables
+
+    listen_raw = ctx.func(LISTEN)
+    listen = ctx.inl(listen_raw)
+    calls = tables.dispatch_calls(ctx, listen, tables.DISPATCH)
+    if len(calls) != 1:
+        raise AnalysisError(f"FRESH-DECODE-1: expected one handler dispatch in Gateway.listen, found {len(calls)}")
+    c = calls[0]
+    cn = Canon(ctx.I, listen, "")
+    chk.instance(rule)
+    key = f"{listen_raw.fq}::decoded-message"
+    got = cn.canon(c.args[1]) if len(c.args) > 1 else "?"
+    a1 = c.args[1] if len(c.args) > 1 else None
+    if isinstance(a1, ast.Name) and got == a1.id:
+        # `message = load(...)` ... `message = await handler(self, message, ...)`: the binding that reaches the dispatch
+        cands = [v for v in (ctx.I.local_assigns(listen).get(a1.id) or []) if isinstance(v, ast.expr) and not any(x is c for x in ast.walk(v)) and v.lineno <= c.lineno]
+        if len(cands) == 1:
+            got = cn.canon(cands[0])
+    want = "self._message_schema.load(self.transport.read())"
+    if got == want:
+        chk.ok(rule, key, f"handler(self, {want}, <buffer>)", ctx.loc(listen_raw, c))
+    else:
+        chk.refute(rule, key, f"the message handed to the handlers is `{got[:80]}`, not `{want}`: a decode that is cached or routed through another object can return a message whose fields no longer spell the line (e.g. the same mutable Message for a repeated line)", ctx.loc(listen_raw, c))
+    # no memoising wrapper around codec entry points anywhere in the package
+    for f in ctx.prog.all_functions():
+        for node in ctx.own_nodes(f):
+            if isinstance(node, ast.Call) and norm(node.func).rsplit(".", 1)[-1] in ("lru_cache", "cache") and any(isinstance(a, ast.Attribute) and a.attr in ("load", "dump", "loads", "dumps") for x in [node] + [p_ for p_ in [ctx.prog.parents.get(node)] if isinstance(p_, ast.Call)] for a in x.args):
+                chk.instance(rule)
+                chk.refute(rule, fkey(f, node) + "::memoised-codec", f"`{norm(ctx.prog.parents.get(node) if isinstance(ctx.prog.parents.get(node), ast.Call) else node)[:70]}` memoises a codec entry point: repeated lines / messages share one mutable result", ctx.loc(f, node))
 
 
 def decl1(ctx: Ctx, chk) -> None:
